@@ -270,6 +270,9 @@ func (e *Engine) Verify(name string) (*VC, error) {
 		t := vc.evalSpec(axEnv, ax.Expr)
 		vc.assert(t.T)
 		vc.note("axiom %s (%s:%d): %s", ax.Name, strings.TrimPrefix(ax.File, "/repo/"), ax.Line, ax.Text)
+		if ax.State {
+			vc.stateAxioms = append(vc.stateAxioms, ax)
+		}
 	}
 	// receivers of methods are non-nil only if required; preconditions:
 	env := f.baseEnv(st)
@@ -289,6 +292,9 @@ func (e *Engine) Verify(name string) (*VC, error) {
 		}
 	}
 	// postconditions at each return
+	for _, r := range f.rets {
+		vc.assumeStateAxioms(fn, r.st, "", r.guard)
+	}
 	for ri, r := range f.rets {
 		penv := f.baseEnv(r.st)
 		penv.old = f.entry
@@ -306,6 +312,18 @@ func (e *Engine) Verify(name string) (*VC, error) {
 			anchor := fmt.Sprint(c.Idx)
 			if c.Tag != "" {
 				anchor = c.Tag
+			}
+			if spec.Flags["split_returns"] != "" && r.blk != nil && len(r.blk.Preds) > 1 {
+				// one obligation per edge into the return block: the solver need not
+				// split the merged state (phi) into its cases itself
+				for j, p := range r.blk.Preds {
+					g, ok := f.edgeG[[2]int{p.Index, r.blk.Index}]
+					if !ok {
+						continue
+					}
+					vc.oblige("ensures", fmt.Sprintf("%s@ret%d~e%d", anchor, ri+1, j+1), And(r.guard, g), t.T, fmt.Sprintf("%s:%d", strings.TrimPrefix(c.File, "/repo/"), c.Line), c.Text)
+				}
+				continue
 			}
 			o := vc.oblige("ensures", fmt.Sprintf("%s@ret%d", anchor, ri+1), r.guard, t.T, fmt.Sprintf("%s:%d", strings.TrimPrefix(c.File, "/repo/"), c.Line), c.Text)
 			_ = o
@@ -356,6 +374,16 @@ func (e *Engine) Verify(name string) (*VC, error) {
 		vc.unsupported("function %s has no reachable return", name)
 	}
 	return vc, nil
+}
+
+// assumeStateAxioms assumes the state axioms for the objects of state st (with
+// lo != "": only those allocated after lo).
+func (vc *VC) assumeStateAxioms(fn *ssa.Function, st *State, lo, guard string) {
+	for _, ax := range vc.stateAxioms {
+		env := &Env{vc: vc, st: st, old: st, vars: map[string]Val{}, fn: fn, allocLo: lo}
+		t := vc.evalSpec(env, ax.Expr)
+		vc.assume(guard, t.T)
+	}
 }
 
 // isDeadReturn: return ri is, counted from the end in source order, one of the
